@@ -218,7 +218,8 @@ def key_for(what, scn, faults, phase):
     k0, kind0, per0 = faults[0]
     if (what == 'timeout' and scn.mode == 's' and len(faults) == 1 and kind0 == 'zero' and per0 and phase == 'open'):
         return 'open_persisting_zero_read_never_returns'
-    if (what == 'timeout' and scn.mode == 's' and phase == 'open' and all(kind == 'zero' and not per for _, kind, per in faults)):
+    # one-shot faults only, all of them inside open, at least one of them a premature zero read (bound 2: the other one may be anything)
+    if (what == 'timeout' and scn.mode == 's' and all(not per and k < scn.cum[0] for k, kind, per in faults) and any(kind == 'zero' for _, kind, _ in faults)):
         return 'open_oneshot_zero_read_never_returns'
     fk = '+'.join('%s%s' % (kind, '*' if per else '') for _, kind, per in faults)
     return '%s:%s:fault_%s_during_%s:%s' % (what, scn.cls, fk, phase, 'chain' if scn.fm.nl > 1 else 'single')
@@ -243,6 +244,7 @@ class Dev:
         self.pending_timeouts = []
         self.open_scn = {}
         self.timing = []
+        self.ref_total, self.ref_unclean = 0, []
 
     # -- baseline ----------------------------------------------------------
     def baselines(self, scns):
@@ -276,14 +278,18 @@ class Dev:
         for (s, rop), r in zip(idx, res):
             v = recovery_view(r, len(s.ops))
             s.ref[rop] = v
-            # the reference itself must be a clean seek (C07/C08 territory otherwise): only then is the target judged
-            good = (v[0] == 0 and isinstance(v[2], str) and v[2].startswith('ok'))
+            # The verdict is equality with this reference whatever it is ("exactly as on a handle that never saw the
+            # failure"); whether a fault-free seek itself is right is C07/C08's business.  References that are not a
+            # clean seek are listed, and the run is vacuous (guard) if they are more than a few.
+            good = (len(v) == 3 and v[0] == 0 and isinstance(v[2], str) and v[2].startswith('ok'))
             if rop.startswith('ps') and good:
                 p = int(rop[2:])
                 good = v[1] in (p, p & ~1)     # half-rate handles land on the even position at or below
+            self.ref_total += 1
             if not good:
-                s.ref[rop] = None
-                self.chk.guard(False, 'fault-free reference of %s + q %s is not a clean seek: %r' % (s.name, rop, v))
+                self.ref_unclean.append({'scenario': s.name, 'recovery_op': rop, 'fault_free_view': list(v)})
+        self.chk.guard(len(self.ref_unclean) * 20 <= self.ref_total, 'fault-free recovery references are clean seeks (rc 0, tell = target, read-through = linear decode): %d of %d are not, e.g. %r'
+                       % (len(self.ref_unclean), self.ref_total, self.ref_unclean[:2]))
 
     def recovery_ops(self, fm):
         if fm.name not in self.rtargets:
@@ -299,13 +305,19 @@ class Dev:
                 'kind': kind, 'base_ops': list(s.ops), 'recovery_op': rop, 'case': case_line(s.fm, s.mode, faults, probe, ops)}
 
     # -- one stage: run a list of fault schedules through the safety run, then the recovery runs ------------
-    def stage(self, todo):
-        """todo: list of (scn, faults).  Returns dict (scn.name, faults) -> parsed safety result."""
-        if not todo:
-            return {}
-        if time.time() > self.deadline:
-            self.cut = True
-            return {}
+    def stage(self, todo, step=4000):
+        """todo: list of (scn, faults).  Returns dict (scn.name, faults) -> parsed safety result.
+        Runs in slices; the deadline is looked at between slices (what was not run is counted in stats['cut_cases'])."""
+        out = {}
+        for i in range(0, len(todo), step):
+            if time.time() > self.deadline:
+                self.cut = True
+                self.stats['cut_cases'] = self.stats.get('cut_cases', 0) + len(todo) - i
+                break
+            out.update(self._stage(todo[i:i + step]))
+        return out
+
+    def _stage(self, todo):
         t_st = time.time()
         res = self.rn.run([case_line(s.fm, s.mode, f, 'none', s.ops) for s, f in todo])
         self.timing.append(('safety runs', len(todo), round(time.time() - t_st, 1)))
@@ -464,14 +476,7 @@ class Dev:
                         for kind2 in FORDER:
                             todo.append((s, (f1, (k2, kind2, 0))))
         self.stats['pairs'] += len(todo)
-        # in slices so that a deadline can cut between them
-        step = 16000
-        for i in range(0, len(todo), step):
-            if time.time() > self.deadline:
-                self.cut = True
-                self.stats['pairs_not_run'] = len(todo) - i
-                break
-            self.stage(todo[i:i + step])
+        self.stage(todo, step=8000)
 
     # -- watchdog expiries: confirm alone with a 10x limit ------------------
     def confirm_timeouts(self):
@@ -483,7 +488,7 @@ class Dev:
         cases = []
         for key, ts in sorted(groups.items()):
             self.stats['timeouts'] += len(ts)
-            ts.sort(key=lambda t: (t[0].name, t[1]))
+            ts.sort(key=lambda t: (t[0].fm.size, t[0].name, t[1]))      # smallest file first: it becomes the recorded reproducer
             n = len(ts)
             pick = ts if n <= 4 else [ts[0], ts[n // 3], ts[(2 * n) // 3], ts[-1]]
             for t in pick:
@@ -514,18 +519,24 @@ def run(tier):
     exe, listfile, models = load(tier)
     wd = 1 if tier == 'quick' else 2
     rn = Runner(exe, listfile, wd)
-    dev = Dev(chk, rn, tier, t0 + (150 if tier == 'quick' else 1380))
+    # internal deadline (s): ends the run with exhaustive:false; C12_DEADLINE_S overrides it on an overloaded machine
+    dev = Dev(chk, rn, tier, t0 + float(os.environ.get('C12_DEADLINE_S', 150 if tier == 'quick' else 1380)))
     scns = scenarios(models, tier)
     dev.baselines(scns)
-    first = [s for s in scns if s.tag == 'open']
+    # order: open scenarios of the small files (their open results prune the other scenarios), all other scenarios, and
+    # the large chain last: if calls hang (1 CPU-second each) and the deadline strikes, it cuts the most redundant tail
+    first = [s for s in scns if s.tag == 'open' and s.fm.name != 'BIG']
     rest = [s for s in scns if s.tag != 'open']
+    big = [s for s in scns if s.fm.name == 'BIG']
     singles = dev.bound1(first)
     singles.update(dev.bound1(rest))
+    singles.update(dev.bound1(big))
     dev.confirm_timeouts()
     if tier == 'thorough':
-        # smallest scenarios first: everything on F1, then open / seek scenarios of the 3-link chain
+        # smallest scenarios first: everything on F1, everything on the 3-link chain, then open / seek scenarios of the two extra files
         small = [s for s in scns if s.fm.name == 'F1' and s.mode == 's']
-        small += [s for s in scns if s.fm.name == 'F2' and s.cls in ('S1open', 'S3seek') and not s.tag.endswith('fresh')]
+        small += [s for s in scns if s.fm.name == 'F2' and s.mode == 's']
+        small += [s for s in scns if s.fm.name in ('F2z', 'F6') and s.cls in ('S1open', 'S3seek') and not s.tag.endswith('fresh')]
         dev.bound2(small, singles)
         dev.confirm_timeouts()
     # ---- evidence
@@ -539,7 +550,7 @@ def run(tier):
         'rule': 'DEV: every scenario (open; open+read-through; open+read+{ps,pp,rs,ts,tp}x3 targets+read; half-rate+seek; streaming; lapped seeks) is run fault-free to count its N callback '
                 'invocations, then re-run for every k<N x {read 0+EIO, read 0, read 1 byte, seek -1, tell -1} one-shot, and persisting from every k whose callback class matches the fault '
                 '(exact reduction); post-open faults are followed by one run per recovery target: <history> q <seek p> + read-through compared with the same history without fault. '
-                'thorough: two more files (4-link chain with single-page and empty links; multiplexed link), three more recovery seeks (pp, rs, ts), and all pairs of one-shot faults on every F1 scenario and on the open / seek scenarios of the 3-link chain (pairs lying entirely inside open only in the open scenario). distinct_nontrivial = distinct (scenario, fault schedule) whose deviation(s) were actually applied '
+                'thorough: two more files (4-link chain with single-page and empty links; multiplexed link), three more recovery seeks (pp, rs, ts), and all pairs of one-shot faults on every seekable F1 and F2 scenario and on the open / seek scenarios of the two extra files (pairs lying entirely inside open are run in the open scenario only; the large chain has bound 1 only). distinct_nontrivial = distinct (scenario, fault schedule) whose deviation(s) were actually applied '
                 '(D>=1, both for pairs); distinct_outcomes = distinct (scenario class, call hit, fault kinds, open rc, rc list, flags / recovery verdict) tuples',
         'scenarios': len(scns),
         'points_per_scenario': {k: (v[0] if len(set(v)) == 1 else [min(v), max(v)]) for k, v in sorted(cls_points.items())},
@@ -548,6 +559,7 @@ def run(tier):
         'stats': dev.stats,
         'effective_faults_by_phase': {'%s/%s/%s' % k: v for k, v in sorted(dev.phase_hits.items())},
         'observations_not_judged': dev.obs,
+        'recovery_references': {'total': dev.ref_total, 'not_a_clean_seek': dev.ref_unclean[:20]},
         'per_scenario': dev.per_scn if len(dev.per_scn) <= 60 else {k: v for k, v in list(sorted(dev.per_scn.items()))[::max(1, len(dev.per_scn) // 40)]},
         'watchdog_cpu_s': wd,
         'stage_timing_cases_wall_s': dev.timing,
@@ -568,14 +580,14 @@ def run(tier):
     ph = dev.phase_hits
     need = [('open', 'R'), ('open', 'S'), ('open', 'T'), ('rf', 'R'), ('ps', 'R'), ('ps', 'S'), ('pp', 'R'), ('pp', 'S'), ('rs', 'R'), ('rs', 'S'), ('ts', 'S'), ('tp', 'S'), ('PS', 'S'), ('RS', 'R')]
     for phase, fc in need:
-        chk.guard(any(p == phase and fc in c for (_, p, c) in ph), 'at least one applied %s-class fault inside %s' % (fc, phase))
+        chk.guard(dev.cut or any(p == phase and fc in c for (_, p, c) in ph), 'at least one applied %s-class fault inside %s' % (fc, phase))
     chk.guard(not dev.det_errors, 'runs whose deviation was never reached are identical to the fault-free run: %r' % (dev.det_errors[:1],))
-    chk.guard(dev.stats['recovery_cases'] > 500, 'recovery clause exercised')
+    chk.guard(dev.cut or dev.stats['recovery_cases'] > 500, 'recovery clause exercised')
     chk.guard(all(len(v) >= 8 for v in dev.rtargets.values()) and len(dev.rtargets) >= 2, '8 recovery targets per file')
     big = [s for s in scns if s.fm.name == 'BIG'][0]
     chk.guard(int(big.base.get('B', 0)) > CHUNKSIZE and big.fm.size > 2 * CHUNKSIZE, 'large chain: open performs seeks further than CHUNKSIZE back (bisection / chunked backward scan reached)')
     unk = [s.name for s in scns if len(s.pclass) != s.N]
-    chk.guard(not unk, 'callback class (read/seek/tell) learned for every point of every scenario: %r' % (unk[:3],))
+    chk.guard(dev.cut or not unk, 'callback class (read/seek/tell) learned for every point of every scenario: %r' % (unk[:3],))
     return chk.finish()
 
 
